@@ -116,6 +116,16 @@ fn gen(rng: &mut Rng, tier: Tier) -> Vec<Case> {
         out.push(Case::new("random", enc(&C { h, qs })));
     }
     if tier == Tier::Thorough {
+        // a LONG-LIVED set: 1100-1500 queries answered by one object (one long interval over many short ones)
+        for k in 0..2u64 {
+            let mut init: Vec<(u64, u64, u64)> = vec![(0, 5000, 0)];
+            for i in 0..40u64 { init.push((100 * i + 10, 100 * i + 10 + rng.range(1, 30), i + 1)); }
+            let mut starts: Vec<u64> = (0..rng.range(1100, 1500)).map(|_| rng.below(5200)).collect();
+            starts.sort();
+            let qs: Vec<(u64, u64)> = starts.into_iter().map(|s| (s, s + rng.range(1, 8))).collect();
+            let ops = if k == 1 { vec![Op::Insert(20, 4000, 77), Op::SetCov] } else { vec![] };
+            out.push(Case::new("long-lived", enc(&C { h: Hist { init, ops }, qs })));
+        }
         // LARGE sets (see lap::gen_large_hist): above every power-of-two threshold up to 2^16, seam-bridging intervals
         for &n in LARGE_SIZES {
             let (h, pts) = gen_large_hist(rng, n, 0);
